@@ -79,6 +79,12 @@ add("C13", True, "E4-sched", "model_checking",
     "Trusted: hand-placed scheduling points (code between two points is atomic); the event-loop model (handler runs when the edge-registered channel fires); data races proper are out of scope (all shared state on these paths is behind Mutex/channels).",
     "5.13")
 
+add("C14", True, "E2-enum", "exploration",
+    "bounded-exhaustive enumeration of boundary alphabets per submessage kind x both byte orders x ordered compositions, with an independent framing walker and parse-back / re-serialise oracle",
+    "About 20 000 messages (thorough: + all ordered compositions of 4 submessages) built only through the constructors the implementation uses: DATA (payload lengths 0..9, 63..65, 255..257, 1019..1028; data / dispose-by-key / dispose-by-key-hash; related sample identity; explicit/unknown reader), DATAFRAG (every fragment for fragment sizes 4,5,8,1024), DATA with inline-QoS lists of 0-3 parameters with value lengths 0..5, GAP (gap_msg, gap_msg_before, explicit), HEARTBEAT (first/last/count/flags product), ACKNACK/NACKFRAG over number sets with bases {1,2,2^31-1,2^31,2^32-1,2^32,2^40} x 10 member patterns (incl. dense 256/257, window edge, beyond window), HEARTBEATFRAG, INFO_TS/DST/SRC/REPLY, both byte orders, every ordered composition of <=3 representative submessages. Oracle per message: an independent framing walker reaches exactly the end and every header's length/flags agree with the bytes; Message::read_from_buffer gives an equal message modulo zero padding of payload/parameter values; re-serialising the parsed message reproduces the bytes; number sets preserve membership inside their window and report nothing outside.",
+    "Exhaustive over the stated alphabets only (exploration level): values between the boundary values are not enumerated. Trusted: the walker; DATAFRAG only for samples larger than the fragment size.",
+    "5.14")
+
 NOT_YET = {}
 
 def main():
